@@ -1080,11 +1080,21 @@ struct static_array<T, ::boost::multi::dimensionality_type{0}, Alloc>  // NOLINT
 	#pragma clang diagnostic ignored "-Wunsafe-buffer-usage"
 	#endif
 
-	constexpr auto operator=(static_array&& other) noexcept -> static_array& {
+	constexpr auto operator=(static_array&& other) noexcept(!multi::allocator_traits<allocator_type>::propagate_on_container_move_assignment::value || multi::allocator_traits<allocator_type>::is_always_equal::value) -> static_array& {
 		assert(equal_extensions_if_(std::integral_constant<bool, (static_array::rank_v != 0)>{}, other));  // NOLINT(cppcoreguidelines-pro-bounds-array-to-pointer-decay,hicpp-no-array-decay) : allow a constexpr-friendly assert
 		if(this == &other) {
 			return *this;
 		}  // like the copy assignment above and array<T, D>::operator=(array&&): a self move assignment must not move the element onto itself (that empties a std::vector)
+		if constexpr(multi::allocator_traits<allocator_type>::propagate_on_container_move_assignment::value) {
+			if(this->alloc() != other.alloc()) {  // a rank-0 array never gives its one element's block away: the element is moved into a block of other's allocator, the old block leaves with tmp under the old one
+				static_array tmp(std::move(other));
+				using std::swap;
+				swap(this->alloc(), tmp.alloc());
+				swap(this->base_, tmp.base_);
+				return *this;
+			}
+			this->alloc() = other.alloc();  // compares equal: the block stays valid
+		}
 		adl_move(other.data_elements(), other.data_elements() + other.num_elements(), this->data_elements());  // there is no std::move_n algorithm
 		return *this;
 	}
